@@ -75,7 +75,7 @@ def conn_ok(S, me):
         cf(S, "alive")[me],
         Implies(app != 0, And(S.alloc[app], Not(cf(S, "_side.isnone")[me]),
                               hp(S, APPS)[H.SERVER][hp(S, "AppNamespace._app_id")[app]] == app)),   # H3
-        Implies(app == 0, M == 0),
+        Implies(app == 0, And(M == 0, cf(S, "_side.isnone")[me])),       # unbound: no side either (bind sets both)
         (M != 0) == cf(S, "_listening")[me],
         Implies(M != 0, And(Not(cf(S, "_mailbox_id.isnone")[me]),
                             cf(S, "_mailbox_id")[me] == hp(S, "Mailbox._mailbox_id")[M])))
